@@ -56,6 +56,7 @@ type checkCtx struct {
 	obls     []*Obligation
 	failures []*failure
 	extra    *extraResult
+	demos    []demoResult
 	replays   string
 	goOverlay map[string]string // source replacements (selftest): also given to `go test -overlay`
 }
@@ -164,6 +165,7 @@ func runCheck(args []string) int {
 	if plan.Extra != nil {
 		cc.extra = plan.Extra(cc)
 	}
+	cc.demos = cc.runDemos(plan.Demos)
 	return cc.report(plan, start, *noEvidence, *quiet)
 }
 
@@ -378,6 +380,27 @@ func (cc *checkCtx) report(plan *PropertyPlan, start time.Time, noEvidence, quie
 		lines = append(lines, fmt.Sprintf("VIOLATION property=%s replay=%s no-failing-input-found", cc.prop, path))
 		lines = append(lines, "  "+nv)
 	}
+	for _, dr := range cc.demos {
+		path := filepath.Join(cc.replays, fmt.Sprintf("%s-demo-%s.json", cc.prop, sanitize(dr.Demo.ID)))
+		if dr.Err != nil && !dr.Present {
+			// the demonstration did not run (does not compile against the current source): no verdict from it
+			lines = append(lines, fmt.Sprintf("NOTE: demonstration %s did not run: %v", dr.Demo.ID, dr.Err))
+			continue
+		}
+		if !dr.Present {
+			continue
+		}
+		os.WriteFile(path, mustJSON(map[string]any{"property": cc.prop, "obligation": "demo:" + dr.Demo.ID, "confirmed": true, "what": dr.Line,
+			"how_to_replay": fmt.Sprintf("go test -overlay <{Replace: {<pkg>/zz_gvc_demo_test.go: %s}}> -vet=off -run '%s' -v . (in %s)", filepath.Join(cc.verifDir, "findings", dr.Demo.Src), dr.Demo.Run, filepath.Join(cc.repo, dr.Demo.PkgRel)),
+			"test_output": dr.Output}), 0o644)
+		if k := kf.match(cc.prop, "demo:"+dr.Demo.ID, nil); k != nil {
+			lines = append(lines, fmt.Sprintf("KNOWN-FINDING: property=%s %s (%s; %s)", cc.prop, k.What, k.Input, k.Class))
+			continue
+		}
+		violations++
+		lines = append(lines, fmt.Sprintf("VIOLATION property=%s replay=%s", cc.prop, path))
+		lines = append(lines, "  "+dr.Line)
+	}
 	if cc.extra != nil {
 		for i, v := range cc.extra.Violations {
 			violations++
@@ -558,6 +581,13 @@ func (cc *checkCtx) writeEvidence(plan *PropertyPlan, wall float64, violations i
 		for _, a := range cc.extra.Assumptions {
 			addA(a)
 		}
+	}
+	if len(cc.demos) > 0 {
+		var ds []any
+		for _, d := range cc.demos {
+			ds = append(ds, map[string]any{"finding": d.Demo.ID, "demonstration": "findings/" + d.Demo.Src, "defect_present_on_this_tree": d.Present, "output": d.Line})
+		}
+		cov["known_finding_demonstrations"] = ds
 	}
 	for _, a := range plan.Assumptions {
 		addA(a)
